@@ -4,27 +4,46 @@ from vlib import common as C
 from vlib.uritab import render_uritab
 
 MANIFEST = {
-    "text": "Lean theorems about the transcription M of src/coap_uri.c: coap_get_uri_path / coap_get_query compute RFC 7252 §6.5's "
+    "text": "Lean theorems about the transcription M of src/coap_uri.c, each for all inputs: coap_split_uri / coap_split_proxy_uri "
+            "equal the RFC 3986 §3 / RFC 7252 §6 structure S on every byte string — accept/reject, scheme, host incl. [IPv6], "
+            "port <= 65535 or the scheme's default, path, query, well-formed escapes (split_uri_eq_spec, "
+            "split_uri_rejects_malformed) and S, hence libcoap, accepts every URI text composed from a table scheme, a host or "
+            "bracketed IPv6 literal, an optional port <= 65535 and a well-formed path/query tail and returns those parts "
+            "(uri_recognised); coap_uri_into_optlist emits exactly RFC 7252 §6.4 steps 5-9's options — Uri-Host "
+            "unless the host is the destination literal, Uri-Port unless default, Uri-Path / Uri-Query per segment "
+            "(uri_into_optlist_eq_spec, uri_to_options_eq_spec, uri_options_defined); coap_path_into_optlist / "
+            "coap_query_into_optlist equal the RFC splitting on every string with well-formed escapes (split_path_eq_spec, "
+            "split_query_eq_spec, decode_once, dot_segments_never_emitted) and so do the buffer writers coap_split_path / "
+            "coap_split_query for every buffer of at least length + 2*segments + 1 bytes (split_path_buf_eq_spec, "
+            "split_query_buf_eq_spec, split_buf_eq_spec_3n, split_buf_documented_bound), which for no buffer size write past "
+            "it and only ever omit segments (split_buf_never_overflows, split_buf_omits_only, split_buf_truncation); coap_get_uri_path / coap_get_query compute RFC 7252 §6.5's "
             "strings with escape tables regenerated from the code and proved equal to the RFC's character classes "
             "(get_uri_path_eq_spec, get_query_eq_spec, escape_tables_match_rfc); those strings are injective modulo the single "
-            "empty segment (uri_path_injective, query_injective) and feed back to the same options (path_feeds_back, "
-            "query_feeds_back); coap_path_into_optlist / coap_query_into_optlist equal the RFC 3986 / RFC 7252 §6.4 splitting on "
-            "every string with well-formed escapes (split_path_eq_spec, split_query_eq_spec, decode_once, "
-            "dot_segments_never_emitted); no transcribed function reads outside the length-delimited input for any input and "
-            "any output buffer size (no_overread). coap_split_path / coap_split_query (buffer writers) and coap_split_uri are "
-            "proved in part (_partial) and otherwise compared with S differentially. M is tied to the compiled code by "
-            "differential runs (I vs M vs S) under ASan/UBSan with exact-size input and output buffers.",
+            "empty segment (uri_path_injective, query_injective) and feed back to the same options, also end to end from a URI "
+            "(path_feeds_back, query_feeds_back, path_roundtrip, query_roundtrip, uri_options_roundtrip); no transcribed "
+            "function reads outside the length-delimited input for any input and any output buffer size (no_overread, uri_no_overread). M is "
+            "tied to the compiled code by differential runs (I vs M vs S) under ASan/UBSan with exact-size input and output "
+            "buffers.",
     "note": "Trusted: Lean kernel (+ propext, Classical.choice, Quot.sound), the T1 extractor and T2 harness/generators, the hand "
             "transcription M (checked against the compiled code on the cases run only). Seven defects found on the way are fixed "
-            "in libcoap (KNOWN_FINDINGS.txt); M is transcribed from the fixed code. Malformed escapes handed directly to the "
-            "component splitters and output buffers below the documented minimum are outside S (SPEC DECISIONS D16a/D16b).",
+            "in libcoap (KNOWN_FINDINGS.txt); M is transcribed from the fixed code. Outside S (SPEC DECISIONS): malformed escapes "
+            "handed directly to the component splitters (D16a) or inside a host (D4), output buffers below the minimum (D16b: "
+            "proved there: no overflow, segments are only omitted, the exact fold), authorities naming a Unix socket (D16f); "
+            "Uri-Host is specified "
+            "decoded-then-lower-cased (D16g). The header's documented buffer bound (length + 2 per segment) is one byte short "
+            "for a segment of >= 269 bytes (decided witness in Props/C16.lean; not a CoAP-legal option length).",
     "design_ref": "DESIGN.md §4 C16, design/C16.md",
 }
 LEAN_MODULES = ["CoapVerif.Props.C16"]
 NAMESPACE = "Coap.C16"
 REQUIRED_THEOREMS = ["escape_tables_match_rfc", "get_uri_path_eq_spec", "get_query_eq_spec", "uri_path_injective",
                      "query_injective", "path_feeds_back", "query_feeds_back", "split_path_eq_spec",
-                     "split_query_eq_spec", "decode_once", "dot_segments_never_emitted", "no_overread"]
+                     "split_query_eq_spec", "decode_once", "dot_segments_never_emitted", "no_overread",
+                     "split_uri_eq_spec", "split_uri_rejects_malformed", "split_uri_eq_spec_instances", "uri_recognised",
+                     "split_path_buf_eq_spec", "split_query_buf_eq_spec", "split_buf_eq_spec_3n",
+                     "split_buf_documented_bound", "split_buf_never_overflows", "split_buf_truncation", "split_buf_omits_only",
+                     "uri_into_optlist_eq_spec", "uri_to_options_eq_spec", "uri_options_defined",
+                     "path_roundtrip", "query_roundtrip", "uri_options_roundtrip", "uri_no_overread"]
 RULE = ("byte strings over an alphabet biased to / % & ? # . [ ] : and hex digits (plus blind bytes) as path / query / URI input, each "
         "in an exact-size heap block without NUL; well-formed and malformed escapes at every position incl. the last two bytes; "
         "literal and percent-encoded dot segments; empty segments; all output buffer sizes 0..need+2 for a sample; segment lists "
@@ -44,11 +63,15 @@ ASSUMPTIONS = ["segment (option value) lengths < 65536 (coap_get_uri_path/_query
 SPEC_DECISIONS = ["D4 S checks URI structure incl. well-formed escapes in path/query; host characters are not validated",
                   "D5 path_feeds_back excludes the segment values '.' and '..'",
                   "D16a component splitters are specified on well-formed escapes only; malformed ones: tie + memory safety",
-                  "D16b buffer writers are specified for buflen >= length + 3*segments; below: tie + memory safety",
+                  "D16b buffer writers are specified for buflen >= length + 3*segments (proved: length + 2*segments + 1 is enough); "
+                  "below: tie + memory safety (proved for M: never writes past the buffer)",
                   "D16c a final '.'/'..' leaves no trailing empty segment; '..' with nothing before it is ignored",
                   "D16d an empty component splits into one empty segment, which counts as no segment",
                   "D16e 'coap://h?q' is well formed; a fragment is cut off by the component splitters, not by coap_split_uri",
-                  "D16f hosts naming a Unix domain socket (%2F…, libcoap extension) are outside S (tie only)"]
+                  "D16f hosts naming a Unix domain socket (%2F…, libcoap extension) are outside S (tie only)",
+                  "D16g Uri-Host = host percent-decoded then lower-cased (RFC 7252 §6.4 step 5 lower-cases first; differs only for "
+                  "percent-encoded upper-case letters, same host either way); omitted iff the host text without zone id equals the "
+                  "destination address text; Uri-Port omitted iff it is the scheme's default"]
 
 
 def extract(ctx):
